@@ -232,3 +232,12 @@ PROPS["C07"] = dict(
     stages=[dict(name="gen", kind="gen", module="Quantile.tla", cfg="Quantile_gen.cfg",
                  consts=dict(Levels={"quick": "{0,4,8,12,16}", "thorough": "{0,4,8,12,16,20,24,28,32}"}, Unit={"quick": 16, "thorough": 32}, MaxBP={"quick": 3, "thorough": 4}))],
 )
+
+PROPS["C04"] = dict(
+    family="ttest", specdir="ttest",
+    technique="TLA+ definitions of the four t statistics (sign and exact rational T^2), degrees of freedom and error cases, with swap / affine-invariance / Welch-Satterthwaite-bound laws checked by TLC over all small integer samples; replayed into the real tests and MeanCI with P evaluated from the exact statistic through an independent Student-t CDF",
+    level_text="TLC enumerates every pair (x1 a bag, x2 a sequence) of 0..4 values over {-2,0,1} (thorough 0..5 over {-2,0,1,3}) and computes sign, T^2 and DoF of the pooled, Welch, paired and one-sample (mu0 in {0, 1/2, -3}) tests exactly, checking that swapping negates T, that x -> a x + b leaves T^2 and DoF unchanged, the Welch-Satterthwaite bounds and pooled = Welch for equal sizes and variances; the binder runs the real tests under 4 affine maps (offsets to 1e6, scale 1/8..4096) for the three alternatives and the swapped call, compares N1, N2, T, DoF, the documented errors and P against the Student-t CDF from gonum's incomplete beta, and checks MeanCI (mean, symmetry, zero / infinite width, NaN for empty input, Student-t content of the interval = c)",
+    level_note="Trusted: TLC, binder comparison code, gonum mathext.RegIncBeta for the Student-t CDF (independent of mathx.BetaInc). Tolerance on T and DoF: max(1e-9, 4096 n eps kappa), kappa = max|x| / scale. Errors are checked only where unambiguous (empty sample, length mismatch, all-constant data, a one-element sample for Welch and paired).",
+    stages=[dict(name="gen", kind="gen", module="TTest.tla", cfg="TTest_gen.cfg",
+                 consts=dict(Vals={"quick": "ValsQuick", "thorough": "ValsThorough"}, MaxLen={"quick": 4, "thorough": 5}))],
+)
